@@ -434,6 +434,7 @@ def _hstack_params(shapes, axis):
     ishape = list(shapes[0])
     ndim = len(ishape)
     idx = shapes[0][axis]
+    axis = axis % ndim
     indices = []
 
     for shape in shapes[1:]:
@@ -527,6 +528,7 @@ def _vstack_params(shapes, axis):
     oshape = list(shapes[0])
     ndim = len(oshape)
     idx = shapes[0][axis]
+    axis = axis % ndim
     indices = []
 
     for shape in shapes[1:]:
